@@ -37,6 +37,15 @@ UnkStored(D) == [k \in 1..Len(D.unk) |-> LET i == UnkByStoredId(D, k - 1) IN
 Project(D) == [lex |-> ProjWords(D.lex), user |-> ProjWords(D.user), unk |-> UnkStored(D),
                nr |-> D.nr, nl |-> D.nl, mat |-> D.mat]
 
+(* what the dictionary says about a fixed list of BMP characters (the same list as PROBE_CHARS
+   in the harness): category set, primary category and its invoke / group / length.  Astral
+   characters are left out (known finding F19). *)
+ProbeChars == <<0, 31, 32, 97, 98, 99, 100, 122, 233, 12288, 12354, 20140, 20141, 26481, 65503, 65520, 65534, 65535>>
+CharProj(D) == [i \in 1..Len(ProbeChars) |->
+                  LET ch == ProbeChars[i]  ln == Line(D, ch)  b == BaseL(D, ln) IN
+                  [ch |-> ch, cats |-> SetToSortSeq(CatSetL(D, ln), LAMBDA x, y : x < y), base |-> b,
+                   invoke |-> D.cats[b + 1].invoke, group |-> D.cats[b + 1].group, length |-> D.cats[b + 1].length]]
+
 (* ---- theorems checked by TLC on small scopes ------------------------------------ *)
 (* tokens of the mapped dictionary = tokens of the original with ids renamed *)
 RenameToks(toks, pl, pr) == [i \in 1..Len(toks) |-> [toks[i] EXCEPT !.l = pl[toks[i].l + 1], !.r = pr[toks[i].r + 1]]]
